@@ -1,11 +1,14 @@
-(* C13 — parts of the full statement that are false of the faithful model (each is a finding). *)
+(* C13 — parts of the full statement that were false of the faithful model of the pinned code (each is a finding,
+   all three repaired: the witnesses run the pinned variants kept in Model.v, and the same scripts are shown to
+   behave correctly in the current model), and witnesses that the hypotheses of C13_sees_final_output are
+   necessary (these are the exemptions the property statement itself makes, not findings). *)
 From Coq Require Import ZArith List Bool.
 Import ListNotations.
 Require Import V.Repeat.Model.
 Open Scope Z_scope.
 
-Definition rcfg (r : option Z) (rep delay : bool) : cfg := {| c_retries := r; c_has_prod := true; c_same_stage := true;
-  c_prod_rep := rep; c_check_out := true; c_has_delay := delay; c_interval := 10000; c_t0 := 100000 |}.
+Definition rcfg (r : option Z) (rep delay : bool) : cfg := {| c_retries := r;
+  c_prods := [{| p_same := true; p_rep := rep |}]; c_check_out := true; c_has_delay := delay; c_interval := 10000; c_t0 := 100000 |}.
 Definition ok := {| o_fail := false; o_rc := 0; o_dur := 1000; o_re := false; o_sui := false |}.
 Definition boom := {| o_fail := true; o_rc := 0; o_dur := 1000; o_re := false; o_sui := false |}.
 Fixpoint polls (n : nat) (o : outcome) : list event :=
@@ -14,24 +17,33 @@ Fixpoint polls (n : nat) (o : outcome) : list event :=
 (* what "stopped by itself without having observed the final output" means *)
 Definition missed (s : st) : Prop :=
   mon_done s = true /\ exit_reason s = RSuccess /\ consume s = true /\ pf s = true /\
-  lo s = Some 100000 /\ execs s = [].
+  lo s = [Some 100000] /\ execs s = [].
 
-(* F13 (open): repeatRetries = 0, the producers' output is not newer than the observer's start, the
-   notification precedes the first poll: that poll does not execute and cancels *)
+Definition run_pinned13 (c : cfg) (s : st) (evs : list event) : st := fold_left (step_pinned13 c) evs s.
+(* the same script in the current (repaired) model: the observer executes once, after the output *)
+Definition seen (s : st) : Prop :=
+  mon_done s = true /\ exit_reason s = RSuccess /\ consume s = true /\ pf s = true /\
+  lo s = [Some 100000] /\ map x_launch (execs s) = [100000].
+
+(* F13 (repaired): repeatRetries = 0, the producers' output is not newer than the observer's start, the
+   notification precedes the first poll: with the pinned controller that poll does not execute and cancels *)
 Theorem C13_small_retries_refuted :
-  missed (run (rcfg (Some 0) true false) (init (rcfg (Some 0) true false)) [Out; Notify; Poll ok]).
+  missed (run_pinned13 (rcfg (Some 0) true false) (init (rcfg (Some 0) true false)) [Out 0; Notify; Poll ok]) /\
+  seen (run (rcfg (Some 0) true false) (init (rcfg (Some 0) true false)) [Out 0; Notify; Poll ok]).
 Proof. vm_compute. repeat split; reflexivity. Qed.
 Print Assumptions C13_small_retries_refuted.
 
 (* the same with the DEFAULT repeatRetries (3): four polls 5 s apart, the last at 15 s < 20 s *)
 Theorem C13_default_retries_refuted :
-  missed (run (rcfg None true false) (init (rcfg None true false)) ([Out; Notify; Poll ok] ++ polls 3 ok)).
+  missed (run_pinned13 (rcfg None true false) (init (rcfg None true false)) ([Out 0; Notify; Poll ok] ++ polls 3 ok)) /\
+  seen (run (rcfg None true false) (init (rcfg None true false)) ([Out 0; Notify; Poll ok] ++ polls 3 ok)).
 Proof. vm_compute. repeat split; reflexivity. Qed.
 Print Assumptions C13_default_retries_refuted.
 
 (* and with 4 when the polls are exactly 5.000 s apart (the forcing rule needs MORE than 20 s) *)
 Theorem C13_four_retries_exact_refuted :
-  missed (run (rcfg (Some 4) true false) (init (rcfg (Some 4) true false)) ([Out; Notify; Poll ok] ++ polls 4 ok)).
+  missed (run_pinned13 (rcfg (Some 4) true false) (init (rcfg (Some 4) true false)) ([Out 0; Notify; Poll ok] ++ polls 4 ok)) /\
+  seen (run (rcfg (Some 4) true false) (init (rcfg (Some 4) true false)) ([Out 0; Notify; Poll ok] ++ polls 4 ok)).
 Proof. vm_compute. repeat split; reflexivity. Qed.
 Print Assumptions C13_four_retries_exact_refuted.
 
@@ -41,7 +53,7 @@ Definition run_pinned (c : cfg) (s : st) (evs : list event) : st := fold_left (s
    8 polls, 8 launches, both retries still there, not cancelled — bounded stop fails *)
 Theorem C13_launch_failure_pinned_refuted :
   let c := rcfg (Some 2) false false in
-  let s := run_pinned c (init c) ([Out; Notify; Poll boom] ++ polls 7 boom) in
+  let s := run_pinned c (init c) ([Out 0; Notify; Poll boom] ++ polls 7 boom) in
   cancel s = false /\ retries s = 2 /\ length (execs s) = 8%nat /\ nact s = 8.
 Proof. vm_compute. repeat split; reflexivity. Qed.
 Print Assumptions C13_launch_failure_pinned_refuted.
@@ -50,8 +62,45 @@ Print Assumptions C13_launch_failure_pinned_refuted.
    observer that has executed before does not cancel it, and no later invocation does *)
 Theorem C13_idle_kill_delay_pinned_refuted :
   let c := rcfg (Some 9) true true in
-  let s := run_pinned c (init c) ([Out; Poll ok; Adv 5000; Out; Poll ok; Adv 5000; Poll ok; Adv 5000; Notify; Poll ok;
+  let s := run_pinned c (init c) ([Out 0; Poll ok; Adv 5000; Out 0; Poll ok; Adv 5000; Poll ok; Adv 5000; Notify; Poll ok;
                                    Adv 5000; Suicide; Poll ok] ++ polls 8 ok) in
   suicide s = true /\ cancel s = false /\ mon_done s = false /\ retries s = 8 /\ nact s = 12.
 Proof. vm_compute. repeat split; reflexivity. Qed.
 Print Assumptions C13_idle_kill_delay_pinned_refuted.
+
+
+(* ---- the hypotheses of C13_sees_final_output are necessary (the property's own exemptions) *)
+(* a cancelled engine that could consume, whose newest producer output is newer than every launch *)
+Definition unseen (c : cfg) (s : st) : Prop :=
+  cancel s = true /\ consume s = true /\
+  exists l, lo_of (lo s) 0 = Some l /\ forall x, In x (execs s) -> x_launch x < l.
+
+(* kill delay: the timer expires before the next execution *)
+Theorem C13_kill_delay_exempt_refuted :
+  let c := rcfg (Some 3) true true in
+  unseen c (run c (init c) [Adv 1; Out 0; Poll ok; Adv 5000; Out 0; Notify; Suicide]).
+Proof.
+  vm_compute. repeat split; try reflexivity. eexists. split; [reflexivity|].
+  intros x [<-|[]]. reflexivity.
+Qed.
+Print Assumptions C13_kill_delay_exempt_refuted.
+
+(* external kill *)
+Theorem C13_external_kill_exempt_refuted :
+  let c := rcfg (Some 3) true false in
+  unseen c (run c (init c) [Adv 1; Out 0; Poll ok; Adv 5000; Out 0; Notify; Kill; Poll ok]).
+Proof.
+  vm_compute. repeat split; try reflexivity. eexists. split; [reflexivity|].
+  intros x [<-|[]]. reflexivity.
+Qed.
+Print Assumptions C13_external_kill_exempt_refuted.
+
+(* output written after the producers-finished notification (a producer that does not behave as a producer) *)
+Theorem C13_late_output_refuted :
+  let c := rcfg (Some 3) true false in
+  unseen c (run c (init c) [Adv 1; Out 0; Notify; Poll ok; Adv 5000; Out 0]).
+Proof.
+  vm_compute. repeat split; try reflexivity. eexists. split; [reflexivity|].
+  intros x [<-|[]]. reflexivity.
+Qed.
+Print Assumptions C13_late_output_refuted.
